@@ -1753,7 +1753,9 @@ XML_DECLS = {
     'standalone-no': '<?xml version="1.0" encoding="UTF-8" standalone="no"?>',
     'bogus': '<?xml version="1.0" encoding="x-no-such-encoding"?>',
 }
-for _e in ('UTF-8', 'utf-8', 'ISO-8859-1', 'US-ASCII', 'UTF-16', 'UTF-16LE', 'UTF-16BE', 'UCS-4'):
+for _e in ('UTF-8', 'utf-8', 'ISO-8859-1', 'US-ASCII', 'UTF-16', 'UTF-16LE', 'UTF-16BE', 'UCS-4',
+           # multi-byte labels that expat refuses and libxml2 (lxml) decodes, single-byte and odd ones
+           'Shift_JIS', 'cp932', 'EUC-JP', 'EUC-KR', 'GBK', 'GB2312', 'Big5', 'windows-1252', 'KOI8-R', 'IBM037', 'UTF-7'):
     XML_DECLS[_e] = f'<?xml version="1.0" encoding="{_e}"?>'
 
 
@@ -1903,8 +1905,12 @@ def globals_worker(job):
                 stats['nontrivial'] += 1       # an entity-declaring text / a non-empty environment
             k += 1
             # small vectors: every tree library x parser version; large texts: one combination each, rotating
-            todo = combos if not ((act == 'ParseXml' and (args[3] > 100 or args[5] != 'none')) or act == 'SeqEval') \
-                else [combos[k % 4]]
+            if act == 'ParseXml' and args[5] != 'none' and args[3] <= 100:
+                todo = [('etree', ('3.0', '3.1')[k % 2]), ('lxml', ('3.1', '3.0')[k % 2])]     # both tree libraries
+            elif (act == 'ParseXml' and args[3] > 100) or act == 'SeqEval':
+                todo = [combos[k % 4]]
+            else:
+                todo = combos
             for lib, ver in todo:
                 rt, pc = roots[lib], parsers[ver]
                 before = snapshot_globals(None)
@@ -2068,6 +2074,231 @@ def envgate_worker(job):
                 samples.append({'part': 'envgate', 'object': kind, 'fun': fun, 'env0': sorted(S0['env']),
                                 'history': [[a, list(x)] for (_, (_, a, x)) in path], 'result': 'as the specification says'})
     return dict(stats), fails, samples
+
+
+# ----------------------------------------------------------------------------------------------
+# fresh processes: first-use races of the process-wide lazy caches (spec/LazyCache.tla) and
+# non-interference of the environment for EVERY expression (spec/Globals.tla NonInterference)
+
+LAZY_FAMILIES = {
+    'w': ["matches($s, '^[\\w.\\-]+$')", "replace($s, '[^\\w]', '#')", "string-join(tokenize($s, '[\\W]+'), '|')"],
+    'd': ["matches($s, '^[\\d.]+$')", "replace($s, '[^\\d]', '#')", "replace($s, '[\\D]+', '-')"],
+    's': ["replace($s, '[\\s,]+', '_')", "matches($s, '^[^\\s]+$')"],
+    'i': ["matches($s, '^[\\i][\\c]*$')", "replace($s, '[^\\i]', '#')"],
+    'c': ["replace($s, '[^\\c]', '#')", "matches($s, '^[\\c]+$')"],
+    'p': ["replace($s, '[\\p{L}]', 'L')", "matches($s, '^\\p{Ll}')", "replace($s, '[\\p{IsBasicLatin}]', 'b')",
+          "replace($s, '\\p{IsNoBlock}', 'n')", "replace($s, '[\\P{Nd}]', 'x')"],
+    'misc': ["format-number(1234.5, '#,##0.00')", "translate($s, 'abc', 'xyz')", "normalize-unicode($s)",
+             "upper-case($s)", "format-integer(12, 'w')", "xs:decimal('1.5') * 2", "compare($s, 'b')",
+             "string(xs:date('2020-01-02') + xs:dayTimeDuration('P1D'))", "parse-json('[1,2]')?2",
+             "string-join(analyze-string($s, '[a-z]+')//*:match, '|')", "//a[1]/string()", "count(//*)"],
+}
+_LAZY_SCRIPT = r"""
+import sys, os, json, threading, time
+sys.path.insert(0, os.environ['C19_REPO'])
+sys.setswitchinterval(1e-5)
+import xml.etree.ElementTree as ET
+from elementpath import Selector
+from elementpath.xpath31 import XPath31Parser
+exprs = json.loads(os.environ['C19_EXPRS'])
+N = int(os.environ['C19_THREADS']); delay = float(os.environ['C19_DELAY'])
+entered = threading.Event()
+patched = 0
+try:       # scripted delay in every lazily cached builder: the race window is as long as the first build
+    from elementpath.regex import character_classes as cc
+    for name in dir(cc):
+        w = getattr(cc, name)
+        orig = getattr(w, '__wrapped__', None)
+        if callable(w) and orig is not None and getattr(w, '__closure__', None):
+            for cell in w.__closure__:
+                if cell.cell_contents is orig:
+                    def delayed(orig=orig):
+                        entered.set()
+                        time.sleep(delay)
+                        return orig()
+                    cell.cell_contents = delayed
+                    patched += 1
+except Exception as e:
+    patched = -1
+stagger = float(os.environ.get('C19_STAGGER', '0'))
+if stagger:    # caches without a builder function of their own (UnicodeData.block('NoBlock')): the scripted delay
+    try:       # goes into the set subtraction they are built with, the threads arrive a few ms apart
+        from elementpath.regex.unicode_subsets import UnicodeSubset
+        _isub = UnicodeSubset.__isub__
+        def slow_isub(self, other):
+            time.sleep(0.0005)
+            return _isub(self, other)
+        UnicodeSubset.__isub__ = slow_isub
+        patched += 1
+    except Exception:
+        pass
+root = ET.XML('<r><a>alpha</a><a>beta</a></r>')
+strings = ['kappa%d2 x.y-z %d' % (i, i) if i % 2 else 'Kappa%d_%d' % (i, i) for i in range(N)]
+def work(i):
+    out = []
+    for e in exprs:
+        try:
+            v = Selector(e, parser=XPath31Parser).select(root, variables={'s': strings[i]})
+            out.append(repr(v))
+        except Exception as x:
+            out.append('raised:' + type(x).__name__)
+    return out
+results = [None] * N
+def run(i):
+    if i and stagger:
+        time.sleep(stagger * i)
+    elif i:
+        entered.wait(0.6)        # arrive while the first thread is inside the builder (or just after it started)
+    results[i] = work(i)
+ths = [threading.Thread(target=run, args=(i,), daemon=True) for i in range(N)]
+for t in ths: t.start()
+for t in ths: t.join(60)
+sequential = [work(i) for i in range(N)]
+print('C19JSON' + json.dumps({'patched': patched, 'window': entered.is_set(), 'results': results, 'sequential': sequential}))
+"""
+ENV_STATES = {
+    'LANG': {'LANG': 'ja_JP.UTF-8'}, 'LC_ALL': {'LC_ALL': 'ja_JP.UTF-8'}, 'LANGUAGE': {'LANGUAGE': 'ja:en'},
+    'LC_MESSAGES': {'LC_MESSAGES': 'ja_JP.UTF-8'}, 'TZ': {'TZ': 'Asia/Tokyo'}, 'HOME': {'HOME': '/nonexistent-c19-home'},
+    'PATH': {'PATH': '/c19-marker-path'}, 'C19': {'C19_SECRET_TOKEN': 's3cr3t'},
+    'all': {'LANG': 'ja_JP.UTF-8', 'LANGUAGE': 'ja:en', 'LC_MESSAGES': 'ja_JP.UTF-8', 'HOME': '/nonexistent-c19-home',
+            'C19_SECRET_TOKEN': 's3cr3t'},
+}
+ENV_EXTRA_EXPRS = ["compare('a','B')", "format-date(xs:date('2020-01-02'), '[MNn] [D1o] [FNn]')",
+                   "format-dateTime(current-dateTime(), '[H01]:[m01] [Z]')", "string(current-dateTime())",
+                   "format-integer(3, 'Ww')", "format-number(1234.5, '#,##0.00')", "lang('en', /r)", "1 div 3",
+                   "sort(('b','a','B'))", "upper-case('i')", "environment-variable('C19_SECRET_TOKEN')",
+                   "count(available-environment-variables())", "string(xs:dateTime('2020-01-02T03:04:05') - current-dateTime())",
+                   "adjust-dateTime-to-timezone(xs:dateTime('2020-01-02T03:04:05'))", "doc-available('x.xml')",
+                   "unparsed-text-available('x.txt')", "static-base-uri()", "resolve-uri('x')", "default-language#0()",
+                   "function-lookup(xs:QName('fn:default-language'), 0)()"]
+_ENV_SCRIPT = r"""
+import sys, os, json, datetime
+# the variables are set at RUN TIME (the interpreter itself started in the same clean environment every time,
+# so its own locale initialisation - which legitimately reads LC_ALL / LANG - is the same in every run)
+os.environ.update(json.loads(os.environ.pop('C19_SETENV')))
+sys.path.insert(0, os.environ['C19_REPO'])
+import xml.etree.ElementTree as ET
+from elementpath import Selector
+from elementpath.xpath31 import XPath31Parser
+root = ET.XML('<r xml:lang="en"><a>alpha</a></r>')
+p = XPath31Parser()
+names = sorted({(getattr(q, 'qname', None) or str(q)) for (q, n) in p.function_signatures if n == 0})
+exprs = [n + '()' for n in names] + json.loads(os.environ['C19_EXPRS'])
+dt = datetime.datetime(2020, 1, 2, 3, 4, 5, tzinfo=datetime.timezone.utc)
+out = {}
+for e in exprs:
+    try:
+        v = Selector(e, parser=XPath31Parser).select(root, current_dt=dt)
+        out[e] = repr(v)[:200]
+    except Exception as x:
+        out[e] = 'raised:' + type(x).__name__ + ':' + str(getattr(x, 'code', None))
+print('C19JSON' + json.dumps(out))
+"""
+# what is implementation-defined to come from the system: the implicit timezone follows TZ
+ENV_EXCLUDED = {'TZ': ('implicit-timezone', 'adjust-dateTime-to-timezone', "format-dateTime(current-dateTime(), '[H01]:[m01] [Z]')")}
+
+
+def _fresh_process(args):
+    """Run a script in a FRESH interpreter (nothing of elementpath imported, no cache filled)."""
+    import subprocess
+    script, extra_env, base_env = args
+    env = {k: v for k, v in os.environ.items() if k not in ('LANG', 'LC_ALL', 'LANGUAGE', 'LC_MESSAGES', 'LC_CTYPE', 'TZ')} \
+        if base_env is None else dict(base_env)
+    env.update(extra_env)
+    env['C19_REPO'] = core.REPO
+    try:
+        r = subprocess.run([sys.executable, '-c', script], env=env, capture_output=True, text=True, timeout=300)
+    except subprocess.TimeoutExpired:
+        return {'_error': 'timeout'}
+    for line in r.stdout.splitlines():
+        if line.startswith('C19JSON'):
+            return json.loads(line[7:])
+    return {'_error': (r.stderr or r.stdout)[-400:]}
+
+
+def parser_locale_race(_arg=None) -> dict:
+    """A parser constructed while ANOTHER thread is inside a collation critical section (scripted pause right after
+    its setlocale): the parser's static default collation must be what a sequentially built parser gets."""
+    from elementpath.xpath31 import XPath31Parser
+    w = World('sim', installed={'de_DE.UTF-8'}, log=[])
+    inside, resume = threading.Event(), threading.Event()
+    inner = w.c_setlocale
+
+    def paused(category, value=None):
+        r = inner(category, value)
+        if category == locale.LC_COLLATE and value not in (None, 'C') and threading.current_thread().name == 'c19-holder':
+            inside.set()
+            resume.wait(5)
+        return r
+    w.c_setlocale = paused
+    install(w)
+    try:
+        w.register(1)
+        sequential = XPath31Parser().default_collation
+        th = threading.Thread(target=lambda: (w.register(2), api_select("compare('a','b',$c)", {'c': 'de_DE.UTF-8'})),
+                              name='c19-holder', daemon=True)
+        th.start()
+        entered = inside.wait(5)
+        concurrent = XPath31Parser().default_collation
+        resume.set()
+        th.join(5)
+        return {'entered': entered, 'sequential': sequential, 'concurrent': concurrent, 'lc_after': w.current()}
+    finally:
+        resume.set()
+        uninstall()
+
+
+def fresh_process_families(tier: str) -> dict:
+    """First-use races of the lazy caches and the environment non-interference family, each case in its own
+    fresh interpreter (run in parallel)."""
+    n_threads = 6 if tier == 'quick' else 10
+    jobs, tags = [], []
+    for fam, exprs in LAZY_FAMILIES.items():
+        for rep_ in range(1 if tier == 'quick' else 3):
+            jobs.append((_LAZY_SCRIPT, {'C19_EXPRS': json.dumps(exprs), 'C19_THREADS': str(n_threads),
+                                        'C19_DELAY': '0.25', 'C19_STAGGER': '0.02' if fam == 'p' else '0'}, None))
+            tags.append(('lazy', fam))
+    clean = {'PATH': os.environ.get('PATH', ''), 'HOME': os.environ.get('HOME', '/root')}
+    for state, extra in [('base', {}), ('base2', {})] + list(ENV_STATES.items()):
+        jobs.append((_ENV_SCRIPT, {'C19_SETENV': json.dumps(extra), 'C19_EXPRS': json.dumps(ENV_EXTRA_EXPRS)}, clean))
+        tags.append(('env', state))
+    with ThreadPoolExecutor(max_workers=8) as ex:
+        outs = list(ex.map(_fresh_process, jobs))
+    fails, stats = [], collections.Counter()
+    base = base2 = None
+    for (kind, tag), out in zip(tags, outs):
+        if '_error' in out:
+            raise tla.MachineryError(f'fresh process {kind}/{tag}: {out["_error"]}')
+        if kind == 'lazy':
+            stats['lazy_processes'] += 1
+            stats['lazy_patched_builders'] += max(out['patched'], 0)
+            stats['lazy_windows_open'] += bool(out['window'])
+            for i, (c, q_) in enumerate(zip(out['results'], out['sequential'])):
+                stats['lazy_evaluations'] += len(q_)
+                if c != q_:
+                    k = next((j for j, (x, y) in enumerate(zip(c or [], q_)) if x != y), 0)
+                    fails.append(({'part': 'lazycache', 'family': tag, 'what': 'concurrent_answer'},
+                                  {'kind': 'lazycache', 'family': tag, 'threads': n_threads, 'thread': i},
+                                  q_[k] if q_ else None, (c[k] if c else 'no result') + '  for ' + LAZY_FAMILIES[tag][k]))
+        elif tag == 'base':
+            base = out
+        elif tag == 'base2':
+            base2 = out
+    stable = {e for e in base if base[e] == base2.get(e)}       # what two identical runs answer identically
+    stats['env_expressions'] = len(stable)
+    stats['env_unstable_excluded'] = len(base) - len(stable)
+    for (kind, tag), out in zip(tags, outs):
+        if kind != 'env' or tag in ('base', 'base2'):
+            continue
+        stats['env_processes'] += 1
+        for e in sorted(stable):
+            if any(x in e for x in ENV_EXCLUDED.get(tag, ())):
+                continue
+            stats['env_evaluations'] += 1
+            if out.get(e) != base[e]:
+                fails.append(({'part': 'envblind', 'variable': tag, 'expr': e.split('(')[0], 'what': 'answer_depends_on_environment'},
+                              {'kind': 'envblind', 'state': ENV_STATES[tag], 'expr': e}, base[e], out.get(e)))
+    return {'stats': dict(stats), 'fails': fails}
 
 
 # ----------------------------------------------------------------------------------------------
@@ -2353,6 +2584,7 @@ def run(chk: core.Check) -> None:
         stress_recs += recs
         stress_log += log
     thr = _in_child(_threads_job, (8, 3 if tier == 'quick' else 12))
+    prace = _in_child(parser_locale_race, None)
     print(f'  stage A: {len(eval_recs)} monitored evaluations ({len(eval_log)} events), {len(stress_recs)} stress traces '
           f'({len(stress_log)} events), {thr["evaluations"]} threaded evaluations  {time.time() - t0:.1f}s', flush=True)
 
@@ -2396,6 +2628,11 @@ def run(chk: core.Check) -> None:
                                                                'CollationBlind'], properties=['EvalPreserves'])
         return 'globals', tla.run_tlc('Globals', cfg, wd, workers=2, dump_dot=dot), dot
     tasks.append(ex.submit(tlc_globals))
+    def tlc_lazy(variant):
+        cfg = tla.cfg_text(dict(Threads={1, 2, 3}, Variant=variant), invariants=['TypeOK', 'ReadsFinished', 'DoneMeansReady'])
+        return tla.run_tlc('LazyCache', cfg, os.path.join(sd, 'lazy-' + variant), workers=2)
+    f_lazy = {v: ex.submit(tlc_lazy, v) for v in ('property', 'pinned')}
+    f_fresh = ex.submit(fresh_process_families, tier)
     f_mon = ex.submit(monitor_paths, chk)
     f_ev = ex.submit(validate_traces, chk, eval_log, 'evals', 1, 4 if tier == 'quick' else 8)
     f_st = ex.submit(validate_traces, chk, stress_log, 'stress', 3, 2 if tier == 'quick' else 6)
@@ -2418,6 +2655,13 @@ def run(chk: core.Check) -> None:
         results[name] = (r, dot)
         print(f'    tlc {name}: {r.distinct} states {r.wall_s:.1f}s', flush=True)
     mon = f_mon.result()
+    r = tla.require_ok(f_lazy['property'].result(), 'LazyCache/property', min_distinct=20)
+    chk.model('LazyCache/property', r)
+    r = f_lazy['pinned'].result()
+    if r.violated != 'ReadsFinished':
+        raise tla.MachineryError('LazyCache: the early-publish variant does not violate ReadsFinished')
+    chk.model('LazyCache/pinned (ReadsFinished violated through PublishEmpty, as expected)', r)
+    fresh = f_fresh.result()
     ev_acc, ev_rej = f_ev.result()
     st_acc, st_rej = f_st.result()
     self_acc, self_rej = f_self.result()
@@ -2692,6 +2936,33 @@ def run(chk: core.Check) -> None:
     chk.add('traces_validated_against_impl', len(order) + len(epaths))
     stats = dict(stats, envgate_histories=len(epaths), envgate_evaluations=estats.get('evaluations', 0))
     chk.coverage['globals'] = stats
+
+    if not prace['entered']:
+        chk.note('parser/locale race: the holder thread never reached its setlocale (scenario not exercised)')
+    elif prace['concurrent'] != prace['sequential']:
+        _report(chk, {'part': 'parser_race', 'what': 'default_collation_read_without_lock'},
+                {'kind': 'parser_race'}, prace['sequential'], prace['concurrent'],
+                'XPath31Parser() built while another thread is inside a collation critical section', 1)
+    chk.add('evaluations', 2)
+    chk.coverage['parser_locale_race'] = prace
+
+    # ---- fresh processes: lazy caches at first use, environment blindness of every expression --------------
+    fg: dict = {}
+    for feat, case, exp, obs in fresh['fails']:
+        fg.setdefault(json.dumps(feat, sort_keys=True), [feat, case, exp, obs, 0])[4] += 1
+    for feat, case, exp, obs, cnt in fg.values():
+        _report(chk, feat, case, exp, obs, str(case), cnt)
+    fst = fresh['stats']
+    if not fst.get('lazy_windows_open'):
+        chk.note('no lazily cached builder could be delayed (instrumentation_missing): the first-use races ran unscripted')
+    chk.add('evaluations', fst.get('lazy_evaluations', 0) * 2 + fst.get('env_evaluations', 0))
+    chk.add('traces_validated_against_impl', fst.get('lazy_processes', 0) + fst.get('env_processes', 0))
+    chk.add('distinct_nontrivial', fst.get('lazy_windows_open', 0) + fst.get('env_processes', 0))
+    chk.coverage['fresh_processes'] = dict(fst, label='each case in its own fresh interpreter: (a) threads meet at the first use '
+                                           'of a lazily built process-wide cache while its builder is delayed (spec/LazyCache.tla '
+                                           'Window), results == sequential; (b) every zero-argument function + extra expressions '
+                                           'under default settings give the same answers whatever LANG/LC_ALL/LANGUAGE/LC_MESSAGES/'
+                                           'TZ/HOME/PATH say (Globals NonInterference for every expression)')
 
     # ---- monitor on C01 vectors, thread exploration --------------------------------------------------
     chk.add('evaluations', mon['evaluations'])
